@@ -193,6 +193,16 @@ func hasInvalidType(typ types.Type, seen map[types.Type]bool) bool {
 	case *types.Signature:
 		return hasInvalidType(t.Params(), seen) || hasInvalidType(t.Results(), seen)
 	case *types.Named:
+		if args := t.TypeArgs(); args.Len() > 0 {
+			// an instantiation: its arguments and the generic type itself. The instantiated struct is not entered:
+			// a generic type may contain a larger instantiation of itself, and so on without end.
+			for i := 0; i < args.Len(); i++ {
+				if hasInvalidType(args.At(i), seen) {
+					return true
+				}
+			}
+			return hasInvalidType(t.Origin(), seen)
+		}
 		return hasInvalidType(t.Underlying(), seen)
 	}
 	return false
